@@ -222,6 +222,9 @@ class C13(Check):
         sib = pick(2, banned=nonuniq_used)       # a sibling embedded application with its own instances
         cfg = {'handler_switched': c.random() < 0.3, 'debug': c.random() < 0.4, 'slash': c.choice(['redirect', 'redirect', 'rewrite', 'strict']), 'types': types, 'outer_wrappers': outer, 'sub_wrappers': sub, 'route_wrappers': route,
                'sib_wrappers': sib}
+        # the application is constructed without routes and every entry is add()ed afterwards (own stream: the other
+        # dimensions of a seed stay what they were)
+        cfg['late_add'] = S['late'].random() < 0.12
         if c.random() < 0.5:
             # the application's very first requests arrive at the same time
             sch = S['sched']
@@ -339,8 +342,14 @@ class C13(Check):
                   ('/in2', Application([('/y', ok)], middlewares=objs('t', cfg.get('sib_wrappers', [])))),
                   ('/sgz', Application([('/', StaticApplication(root))], middlewares=[GzipMiddleware()])),
                   ('/nonresp', lambda: {'not': 'a response'})]
-        app = Application(routes, middlewares=objs('o', cfg['outer_wrappers']), debug=cfg['debug'],
-                          slash_mode=cfg.get('slash', 'redirect'))
+        if cfg.get('late_add'):
+            app = Application([], middlewares=objs('o', cfg['outer_wrappers']), debug=cfg['debug'],
+                              slash_mode=cfg.get('slash', 'redirect'))
+            for entry in routes:
+                app.add(entry)
+        else:
+            app = Application(routes, middlewares=objs('o', cfg['outer_wrappers']), debug=cfg['debug'],
+                              slash_mode=cfg.get('slash', 'redirect'))
         if cfg.get('handler_switched'):
             # the finished application is given another error handler (its public method): everything else stays
             from clastic.errors import ErrorHandler, ContextualErrorHandler
@@ -429,7 +438,7 @@ class C13(Check):
                 return
             bad = self.wrapper_order_problem(cfg, env.get('sim.wrappers', []))
             if bad:
-                res.violate(K + 'wrapper-order:' + bad[0] + '@first-batch', ctx + ' -> wrappers entered %r: %s' % (env.get('sim.wrappers', []), bad[1]), 'first')
+                res.violate(K + 'wrapper-order:' + bad[0] + ('@routes-added-after-construction' if cfg.get('late_add') else '') + '@first-batch', ctx + ' -> wrappers entered %r: %s' % (env.get('sim.wrappers', []), bad[1]), 'first')
                 return
 
     def one(self, app, cfg, op, step, res, seam, target):
@@ -541,7 +550,9 @@ class C13(Check):
         order = env.get('sim.wrappers', [])
         bad = self.wrapper_order_problem(cfg, order)
         if bad:
-            res.violate(K + 'wrapper-order:' + bad[0], ctx + ' -> wrappers entered %r: %s' % (order, bad[1]), step)
+            if cfg.get('late_add'):
+                res.probe('routes-added-after-construction-wrapper-problem')
+            res.violate(K + 'wrapper-order:' + bad[0] + ('@routes-added-after-construction' if cfg.get('late_add') else ''), ctx + ' -> wrappers entered %r: %s' % (order, bad[1]), step)
             return
         # the environ the Application itself was handed: what the innermost wrapper passed inward
         inner_env = env['sim.chain'][-1] if env.get('sim.chain') else env
